@@ -17,6 +17,7 @@ package jobs
 import (
 	"context"
 	"errors"
+	"github.com/mimiro-io/datahub/internal/verifhook"
 	"math"
 	"reflect"
 	"sync"
@@ -110,6 +111,7 @@ func (pipeline *FullSyncPipeline) sync(job *job, ctx context.Context) (int, erro
 					if err2 != nil {
 						return err2
 					}
+					verifhook.Point("pipeline.full.afterSink")
 				}
 
 				// capture token if there is one
@@ -153,6 +155,7 @@ func (pipeline *FullSyncPipeline) sync(job *job, ctx context.Context) (int, erro
 	if err != nil {
 		return entCnt, err
 	}
+	verifhook.Point("pipeline.full.afterEndFullSync")
 
 	if pipeline.transform != nil {
 		err = pipeline.transform.EndStoreContext(job.id)
@@ -299,6 +302,7 @@ func (pipeline *IncrementalPipeline) sync(job *job, ctx context.Context) (int, e
 					if err != nil {
 						return err
 					}
+					verifhook.Point("pipeline.incr.afterSink")
 				}
 
 				// store token if there is one
@@ -312,6 +316,7 @@ func (pipeline *IncrementalPipeline) sync(job *job, ctx context.Context) (int, e
 					if err != nil {
 						return err
 					}
+					verifhook.Point("pipeline.incr.afterToken")
 				}
 
 				if incomingEntityCount == 0 || // if this was the last page (empty) of a tokenized source
